@@ -2,7 +2,7 @@
    __class / __setattr / __object / __module, _get_definition_module), as repaired by
    fixes/F29-livepatch-class-bases.diff, fixes/C16a-livepatch-object-slot-setattr.diff,
    fixes/C16d-livepatch-function-kwdefaults.diff, fixes/C16b-livepatch-function-cell-rebind.diff and
-   fixes/C16e-livepatch-class-bases-identity.diff.
+   fixes/C16e-livepatch-class-bases-identity.diff and fixes/C16g-livepatch-class-gained-base.diff.
    Model only; proofs are in PatchProofs.v.
 
    The handlers are written with open recursion (`rec` = the nested call of `livepatch`), the
@@ -42,7 +42,9 @@ Fixpoint cache_find (c : list ((addr * addr) * addr)) (o n : addr) : option addr
   end.
 
 (* the names whose special treatment is spelled out in the code; the harness passes their key ids *)
-Record names := mkNames { k_slots : key; k_dict : key; k_weakref : key; k_doc : key }.
+(* ... and, since the C16-g repair, the address of the __dict__ of the module being reloaded
+   (_MODULES_BEING_RELOADED[modname].__dict__), which _livepatch__class consults for gained bases *)
+Record names := mkNames { k_slots : key; k_dict : key; k_weakref : key; k_doc : key; oldmod_dict : addr }.
 
 Definition recT := st -> list addr -> addr -> addr -> res.
 
@@ -316,12 +318,38 @@ Fixpoint find_old_base (h : heap) (obs : list addr) (nb : addr) : option addr :=
                end
   end.
 
+(*  if oldbase is None and newbase.__module__ == modname:                    # C16-g repair
+        candidate = _MODULES_BEING_RELOADED[modname].__dict__.get(newbase.__name__)
+        if isinstance(candidate, type) and candidate.__module__ == newbase.__module__ and
+           candidate.__name__ == newbase.__name__: oldbase = candidate                          *)
+Definition gained_counterpart (h : heap) (nb : addr) : option addr :=
+  match class_key h nb with
+  | Some (Some m, n) =>
+      if (m =? modname)%N then
+        match lookup h (oldmod_dict nm) with
+        | Some (ODict e) =>
+            match aget e n with
+            | Some c => if same_class_key (class_key h c) (class_key h nb) then Some c else None
+            | None => None
+            end
+        | _ => None
+        end
+      else None
+  | _ => None
+  end.
+
+Definition base_counterpart (h : heap) (obs : list addr) (nb : addr) : option addr :=
+  match find_old_base h obs nb with
+  | Some ob => Some ob
+  | None => gained_counterpart h nb
+  end.
+
 Fixpoint map_bases (rec : recT) (stack : list addr) (obs nbs : list addr) (s : st) (acc : list addr)
                    (k : st -> list addr -> res) : res :=
   match nbs with
   | [] => k s (rev acc)
   | nb :: r =>
-      match find_old_base (hp s) obs nb with
+      match base_counterpart (hp s) obs nb with
       | Some ob => bind (rec s stack ob nb) (fun s' u => map_bases rec stack obs r s' (u :: acc) k)
       | None => map_bases rec stack obs r s (nb :: acc) k
       end
